@@ -31,7 +31,7 @@ SHARDS = {"quick": 8, "thorough": 16}
 TIMEOUT_S = {"quick": 900, "thorough": 3600}
 BUDGET_S = {"quick": 150, "thorough": 1800}
 RULE = ("scenarios = {seed, event-queue (LLSD and garbage body), wrapper, asset served by the local repo, proxy-only, temporary, plain asset, login, upload, "
-        "unknown URL} x {request, response} x addon behaviours {ignore, take and release later, take and resume inside the hook, "
+        "unknown URL} x {request, response} x addon behaviours {ignore, take and release later, take and release after the owning session is gone, take and resume inside the hook, "
         "resume inside the hook, take then raise, inject response, rewrite URL, raise, retarget cap data, disable streaming, "
         "return True}; each scenario is run once cleanly and once per function entered inside the handlers (failpoint raising "
         "there; quick: every 3rd failpoint per scenario, thorough: all) and once per statement executed inside the event manager's own handler functions (sys.monitoring LINE failpoints; quick: every 4th); + the mitmproxy-side callback pump (good / corrupt state / "
@@ -44,7 +44,7 @@ ASSUMPTIONS = [
     "an exception escaping pump_proxy_event is tolerated (the run loop logs and continues) as long as the flow is handed back",
 ]
 MUST_REACH = {"scenarios": 40, "failpoint_runs": 500, "clean_runs": 40, "taken_flows_released": 30, "state_transfers_compared": 500,
-              "exceptions_escaped_pump": 50, "mitm_side_runs": 6, "e2e_runs": 100, "e2e_states_compared": 150, "session_only_capdata": 5, "locally_served_assets": 3, "line_failpoint_runs": 300, "mitm_history_runs": 6}
+              "exceptions_escaped_pump": 50, "mitm_side_runs": 6, "e2e_runs": 100, "e2e_states_compared": 150, "session_only_capdata": 5, "locally_served_assets": 3, "line_failpoint_runs": 300, "mitm_history_runs": 6, "owners_gone_before_release": 10}
 
 FAIL = {"armed_at": None, "count": 0, "in_handler": 0, "points": [], "fired": None}
 TOOL_ID = 3
@@ -152,7 +152,7 @@ class FlowAddon:
         b = self.behaviour
         if b == "ignore":
             return None
-        if b == "take":
+        if b in ("take", "take_owner_gone"):
             self.taken = flow.take()
             return None
         if b == "take_resume_now":
@@ -197,7 +197,7 @@ class FlowAddon:
 # ------------------------------------------------------------------ scenarios
 
 URL_KINDS = ["seed", "eq", "eq_garbage", "wrapper", "served", "proxy_only", "temporary", "asset", "login", "upload", "unknown"]
-BEHAVIOURS = ["ignore", "take", "take_resume_now", "resume_now", "take_then_raise", "inject_response", "rewrite_url", "raise", "retarget", "no_stream", "true"]
+BEHAVIOURS = ["ignore", "take", "take_owner_gone", "take_resume_now", "resume_now", "take_then_raise", "inject_response", "rewrite_url", "raise", "retarget", "no_stream", "true"]
 
 
 def build(rig, kind, event_type):
@@ -329,6 +329,16 @@ def run_scenario(ctx, kind, event_type, behaviour, armed_at, mode="call"):
             if callbacks:
                 ctx.violation("taken-flow-handed-back-early", "a flow an addon took ownership of was handed back before the addon "
                               "released it", dict(wit, callbacks=len(callbacks)))
+            if behaviour == "take_owner_gone":
+                # while the addon holds the flow, the session it belongs to logs out and is collected
+                import gc
+                for sess in list(rig.session_manager.sessions):
+                    rig.session_manager.sessions.remove(sess)
+                addon.session = None
+                session = None
+                sess = None
+                gc.collect()
+                ctx.count("owners_gone_before_release")
             try:
                 addon.taken.resume()
                 ctx.count("taken_flows_released")
